@@ -232,6 +232,10 @@ func runC11(ctx *harness.Ctx) {
 			b.WriteString(rapid.SampledFrom(seps).Draw(t, "trail"))
 		}
 		src := b.String()
+		if fp := farPrefix(t, 40, true); fp != "" {
+			src = fp + src
+			ctx.Class("far-offset")
+		}
 		if _, err := reflex.Lex(src); err != nil {
 			ctx.Class("lexically-invalid(skipped)")
 			return
